@@ -289,6 +289,15 @@ type Spec struct {
 	Depth int
 	// NoDescend prevents summarising a callee (its own tags still apply).
 	NoDescend func(f *types.Func) bool
+	// Inline is the number of frames of same-package, statically resolved callees that are analysed *in the
+	// caller's context*: the callee's body is run from the state at the call site (must/may tags and facts about
+	// the arguments), the call points and assignments met inside are recorded with that context, and the
+	// caller continues with what holds on the callee's exits. This is what keeps the rules indifferent to
+	// extract-method refactorings. 0 means the default (2 frames); negative switches it off.
+	Inline int
+
+	nextInline int
+	inlining   map[*types.Func]bool
 
 	cache map[sumKey]*Summary
 	busy  map[*types.Func]bool
@@ -330,11 +339,24 @@ type sumKey struct {
 
 // Analyze runs the engine over a declared function.
 func (sp *Spec) Analyze(f *core.FuncInfo) *Result {
+	sp.armInline()
 	return sp.run(f.Pkg, f.Decl.Type, f.Decl.Body, sp.W.CFG(f), sp.Depth, nil)
+}
+
+func (sp *Spec) armInline() {
+	switch {
+	case sp.Inline < 0:
+		sp.nextInline = 0
+	case sp.Inline == 0:
+		sp.nextInline = 2
+	default:
+		sp.nextInline = sp.Inline
+	}
 }
 
 // AnalyzeLit runs the engine over a function literal (free variables are unknown).
 func (sp *Spec) AnalyzeLit(pkg *packages.Package, lit *ast.FuncLit) *Result {
+	sp.armInline()
 	return sp.runLit(pkg, lit, sp.Depth)
 }
 
@@ -440,10 +462,13 @@ type runner struct {
 	record     bool
 	res        *Result
 	inLoop     map[*cfg.Block]bool
+	inline     int
 }
 
 func (sp *Spec) run(pkg *packages.Package, ft *ast.FuncType, body *ast.BlockStmt, g *cfg.CFG, depth int, init *State) *Result {
 	r := &runner{sp: sp, pkg: pkg, info: pkg.TypesInfo, ftype: ft, depth: depth, caseTag: map[ast.Expr]ast.Expr{}, selectComm: map[ast.Stmt]bool{}, origins: map[*ast.CallExpr]*Origin{}, res: &Result{}, errIdx: -1}
+	r.inline = sp.nextInline
+	sp.nextInline = 0 // nested runs (summaries, literals) are context-free unless the caller arms it again
 	if ft.Results != nil {
 		i := 0
 		for _, fld := range ft.Results.List {
@@ -1169,6 +1194,80 @@ func (r *runner) call(b *cfg.Block, c *ast.CallExpr, st *State, valueUsed bool) 
 	for _, t := range or.Tags {
 		r.addTag(st, t)
 	}
+	if fi := r.inlineTarget(callee, or.Tags); fi != nil {
+		// the callee in the caller's context
+		seed := newState()
+		for t := range st.Must {
+			seed.Must[t] = true
+		}
+		for t := range st.May {
+			seed.May[t] = true
+		}
+		// facts about the arguments travel to the parameters
+		if sig, ok := callee.Type().(*types.Signature); ok && fi.Decl.Type.Params != nil {
+			var params []types.Object
+			for _, fld := range fi.Decl.Type.Params.List {
+				for _, nm := range fld.Names {
+					params = append(params, fi.Pkg.TypesInfo.Defs[nm])
+				}
+			}
+			if !sig.Variadic() {
+				for i, a := range c.Args {
+					if i >= len(params) || params[i] == nil {
+						continue
+					}
+					if v := r.exprNil(a, st); v != 0 {
+						seed.Nil[params[i]] = v
+					}
+					if id, ok := ast.Unparen(a).(*ast.Ident); ok {
+						if src := r.info.Uses[id]; src != nil {
+							if v, ok := st.Bool[src]; ok {
+								seed.Bool[params[i]] = v
+							}
+							if v, ok := st.Eq[src]; ok {
+								seed.Eq[params[i]] = v
+							}
+							if cst, ok := src.(*types.Const); ok && cst.Val().Kind() == constant.Bool {
+								if constant.BoolVal(cst.Val()) {
+									seed.Bool[params[i]] = isTrue
+								} else {
+									seed.Bool[params[i]] = isFalse
+								}
+							}
+						}
+					}
+				}
+			}
+		}
+		if r.sp.inlining == nil {
+			r.sp.inlining = map[*types.Func]bool{}
+		}
+		r.sp.inlining[callee] = true
+		r.sp.nextInline = r.inline - 1
+		sub := r.sp.run(fi.Pkg, fi.Decl.Type, fi.Decl.Body, r.sp.W.CFG(fi), r.depth, seed)
+		delete(r.sp.inlining, callee)
+		if r.record {
+			r.res.Calls = append(r.res.Calls, sub.Calls...)
+			r.res.Assigns = append(r.res.Assigns, sub.Assigns...)
+		}
+		if len(sub.Exits) > 0 && sub.Sum != nil {
+			or.Sum = sub.Sum
+			// what survives every exit of the callee (tags it killed on some path are gone)
+			for t := range st.Must {
+				if !sub.Sum.MustAll[t] {
+					delete(st.Must, t)
+				}
+			}
+			for t := range sub.Sum.MustAll {
+				st.Must[t] = true
+				st.May[t] = true
+			}
+			for t := range sub.Sum.May {
+				st.May[t] = true
+			}
+		}
+		return or
+	}
 	if callee != nil && r.depth > 0 && !r.foreignIface(callee) {
 		_, callees, _ := r.sp.W.Resolve(r.info, c)
 		if s := r.sp.calleeSummary(callees, r.depth-1); s != nil {
@@ -1182,6 +1281,28 @@ func (r *runner) call(b *cfg.Block, c *ast.CallExpr, st *State, valueUsed bool) 
 		}
 	}
 	return or
+}
+
+// inlineTarget: a statically resolved callee declared in the analysed function's own package, with a body, not
+// already being inlined (recursion), and not itself an event of the rule (a classified call is a leaf: the rule
+// has said what it means).
+func (r *runner) inlineTarget(callee *types.Func, tags []Tag) *core.FuncInfo {
+	if r.inline <= 0 || callee == nil || len(tags) > 0 {
+		return nil
+	}
+	fi := r.sp.W.Info(callee)
+	if fi == nil || fi.Decl.Body == nil || fi.Pkg != r.pkg || r.sp.inlining[callee] {
+		return nil
+	}
+	if sig, ok := callee.Type().(*types.Signature); ok && sig.Recv() != nil {
+		if _, isIface := sig.Recv().Type().Underlying().(*types.Interface); isIface {
+			return nil
+		}
+	}
+	if r.sp.NoDescend != nil && r.sp.NoDescend(callee) {
+		return nil
+	}
+	return fi
 }
 
 func (r *runner) killVar(o types.Object, st *State, pos token.Pos) {
@@ -1592,6 +1713,7 @@ func (sp *Spec) AnalyzeLitSeed(pkg *packages.Package, lit *ast.FuncLit, seed fun
 	if seed != nil {
 		seed(st)
 	}
+	sp.armInline()
 	return sp.run(pkg, lit.Type, lit.Body, sp.W.LitCFG(pkg, lit), sp.Depth, st)
 }
 
@@ -1601,6 +1723,7 @@ func (sp *Spec) AnalyzeSeed(f *core.FuncInfo, seed func(*State)) *Result {
 	if seed != nil {
 		seed(st)
 	}
+	sp.armInline()
 	return sp.run(f.Pkg, f.Decl.Type, f.Decl.Body, sp.W.CFG(f), sp.Depth, st)
 }
 
